@@ -60,7 +60,7 @@ Section Writer.
     copy_buffer H comb true fuel src bufsz dg sz = ((None, out), v) /\
     (w_mode w <> None -> length out <= w_left w) /\
     matches_desc H dg sz out /\
-    (b_lim src = None -> stream (b_evs src) = out).
+    (b_lim src = None -> neof (b_evs src) = 0 -> stream (b_evs src) = out).
   Proof.
     unfold copy_buffer_w, copy_buffer.
     destruct (copy_loop_w comb fuel (new_vr true src dg sz) bufsz [] w) as [[[e o] v0] w0] eqn:Ec.
